@@ -171,6 +171,8 @@ pub enum KsfKind {
     Dyn,
     RealIdentity,
     RealArgon2,
+    /// a zero-sized non-identity KSF type defined by the harness
+    Zst,
 }
 
 /// cost class of a full register+login flow
